@@ -17,6 +17,9 @@ def snapshot_of(sa, strategy, ret):
     if strategy == "dimension_wise":
         st = [[(float(o.start).hex(), float(o.end).hex(), int(o.levels[0]), int(o.levels[1]), int(o.coarsening_level)) for o in
                sa.refinement.get_refinement_container_for_dim(d).get_objects()] for d in range(sa.dim)]
+    elif strategy == "cell":
+        st = sorted((tuple(float(x).hex() for x in o.start), tuple(float(x).hex() for x in o.end), bool(o.active), [int(x) for x in o.levelvec])
+                    for o in sa.refinement.get_objects())
     else:
         st = sorted((tuple(float(x).hex() for x in o.start), tuple(float(x).hex() for x in o.end), int(o.coarseningValue), int(o.needExtendScheme))
                     for o in sa.refinement.get_objects())
@@ -107,18 +110,21 @@ class C14(Check):
     expected_probes = ["crash_point", "restored_equals_saved"]
     assumptions = ["pickle has no integrity check and no property promises one: bit flips inside a successfully written file are not injected",
                    "a failed save or a failed restore must fail loudly and leave the live instance untouched"]
-    excluded_configs = ["cell strategy (restores but the statement's strategies with interpolation are dimension-wise and extend-split)",
+    excluded_configs = ["cell strategy: driven for stop / save / restore / continue, but without the interpolation query (not offered by this strategy)",
                         "extend-split: automatic decision with lmin == lmax and versions 1/2 with lmin >= 2 (known findings of C07)"]
 
     def setup(self):
-        import sparseSpACE.spatiallyAdaptiveSingleDimension2, sparseSpACE.spatiallyAdaptiveExtendSplit  # noqa
+        import sparseSpACE.spatiallyAdaptiveSingleDimension2, sparseSpACE.spatiallyAdaptiveExtendSplit, sparseSpACE.spatiallyAdaptiveCell  # noqa
         import simcore.env  # noqa
         DS.install_observers()
 
     def gen(self, rk, tier, idx):
         r = stream(rk, "cfg")
-        strategy = r.choice(["dimension_wise"] * 3 + ["extend_split"] * 2)
-        if strategy == "dimension_wise":
+        strategy = r.choice(["dimension_wise"] * 6 + ["extend_split"] * 4 + ["cell"])
+        if strategy == "cell":
+            cfg = ES.gen_cell_cfg(r, tier)
+            cfg["max_leaves"] = 10 ** 6
+        elif strategy == "dimension_wise":
             cfg = DS.gen_cfg(r, tier, dims=(1, 2, 2, 2, 3))
             cfg["max_intervals"] = 10 ** 6
         else:
@@ -159,7 +165,7 @@ class C14(Check):
                 n = copy.deepcopy(s); n["config"]["fault_weights"] = {g: (1 if g == f else 0) for g in FAULTS}; yield n
 
     def make(self, cfg, rk, ctx):
-        cls = DS.DimwiseSim if cfg["strategy"] == "dimension_wise" else ES.ExtendSplitSim
+        cls = {"dimension_wise": DS.DimwiseSim, "cell": ES.CellSim}.get(cfg["strategy"], ES.ExtendSplitSim)
         sim = cls(cfg, rk, ctx, [])
         sim.eval_cap = 150
         sim.build()
@@ -212,7 +218,7 @@ class C14(Check):
         P = query_points(rk, a, b, 5)
         # __call__ raises for extend-split without boundary points (known finding of C07) and is not supported on grids
         # without points on the area boundaries (Gauss-Legendre); the restored-equals-saved clause then compares result and counts
-        interp = not (st == "extend_split" and (not cfg["boundary"] or cfg.get("grid", "TrapezoidalGrid") not in ("TrapezoidalGrid", "LagrangeGrid")))
+        interp = st != "cell" and not (st == "extend_split" and (not cfg["boundary"] or cfg.get("grid", "TrapezoidalGrid") not in ("TrapezoidalGrid", "LagrangeGrid")))
         # queries run on deep copies: __call__ may evaluate the integrand at further points (it does for extend-split
         # version 2), which moves the point count and hence the stop of the continued run - the statement is about
         # stop / save / restore / continue, not about queries in between
